@@ -18,7 +18,9 @@ CONSTANTS OptsSet,    \* set of option records
           Vals,       \* measurement values (integers)
           Res,        \* resource attributes (ordered by key)
           Bounds,     \* explicit histogram boundaries (integers, ascending)
-          Scopes,     \* scope records [id, name, version, url] with a non-default identity
+          Scopes,     \* scope records [id, name, version, url, attrs] with a non-default identity
+          SpanFlags,  \* subset of BOOLEAN: Rec inside a sampled span (exemplar) or not
+          Mark,       \* BOOLEAN: measurements carry the vinst marker
           MaxInst, MaxRec, MaxScr
 
 VARIABLES o, started, created, recs, cache, nscr, out, hist, act
@@ -39,7 +41,7 @@ Point(in, a) ==
   LET vs == ValsOf(in.id, a)
       d == DataOf(in.kind)
       base == [as |-> a, val |-> "", count |-> 0, sum |-> "", counts |-> <<>>, scale |-> 0, zero |-> 0,
-               poff |-> 0, pcnt |-> <<>>, noff |-> 0, ncnt |-> <<>>]
+               poff |-> 0, pcnt |-> <<>>, noff |-> 0, ncnt |-> <<>>, exs |-> <<>>]   \* exemplars: from the SDK in the replayed run
   IN CASE d = "counter" -> [base EXCEPT !.val = ToString(SeqSum(vs))]
        [] d = "gauge" -> [base EXCEPT !.val = IF in.kind \in {"gauge", "fgauge", "ogauge", "ofgauge"}
                                                 THEN ToString(vs[Len(vs)]) ELSE ToString(SeqSum(vs))]
@@ -55,7 +57,7 @@ Stream(in) ==
 Streams == LET live == SelectSeq(created, LAMBDA in : \E j \in 1..Len(recs) : recs[j].i = in.id)
            IN [k \in 1..Len(live) |-> Stream(live[k])]
 Env == [o |-> o, res |-> Res, insts |-> created, ases |-> ASes, bounds |-> [k \in 1..Len(Bounds) |-> ToString(Bounds[k])],
-        scopes |-> Scopes]
+        qbounds |-> [k \in 1..Len(Bounds) |-> 8 * Bounds[k]], scopes |-> Scopes, mark |-> Mark]
 
 (* ---- actions ---- *)
 Init == /\ o = NoOpts /\ started = FALSE /\ created = <<>> /\ recs = <<>> /\ cache = {} /\ nscr = 0
@@ -73,10 +75,10 @@ Create(t) == /\ started /\ Len(created) < MaxInst /\ \A k \in 1..Len(created) : 
              /\ Log([op |-> "Create", inst |-> t])
              /\ UNCHANGED <<o, started, recs, cache, nscr>>
 
-Rec(k, a, v) == /\ started /\ Len(recs) < MaxRec /\ k \in 1..Len(created)
+Rec(k, a, v, sp) == /\ started /\ Len(recs) < MaxRec /\ k \in 1..Len(created)
                 /\ (DataOf(created[k].kind) = "counter" => v >= 0)
-                /\ recs' = Append(recs, [i |-> created[k].id, as |-> a, v |-> v]) /\ out' = NoOut
-                /\ Log([op |-> "Rec", inst |-> created[k].id, as |-> a, v |-> v])
+                /\ recs' = Append(recs, [i |-> created[k].id, as |-> a, v |-> v, sp |-> sp]) /\ out' = NoOut
+                /\ Log([op |-> "Rec", inst |-> created[k].id, as |-> a, v |-> v, sp |-> sp])
                 /\ UNCHANGED <<o, started, created, cache, nscr>>
 
 Scr == /\ started /\ nscr < MaxScr /\ created # <<>>
@@ -90,7 +92,7 @@ Scr == /\ started /\ nscr < MaxScr /\ created # <<>>
 
 Next == \/ \E op \in OptsSet : New(op)
         \/ \E t \in Templates : Create(t)
-        \/ \E k \in 1..MaxInst, a \in RecAS, v \in Vals : Rec(k, a, v)
+        \/ \E k \in 1..MaxInst, a \in RecAS, v \in Vals, sp \in SpanFlags : Rec(k, a, v, sp)
         \/ Scr
 Spec == Init /\ [][Next]_vars
 
